@@ -93,6 +93,11 @@ type Known struct {
 	Status   string `json:"status"` // open | fixed
 	Property string `json:"property"`
 	Sig      string `json:"signature"`
+	// InputClass (optional) ties a finding to the inputs that fail rather than to the place
+	// where the failure is noticed: Sig is then a prefix ("hang@") and the scenario's target
+	// file must belong to the named class (inputClasses). A hang is noticed wherever the
+	// watchdog happens to catch it, so the loop home alone would not identify the finding.
+	InputClass string `json:"input_class,omitempty"`
 	Witness  string `json:"witness,omitempty"`
 	What     string `json:"what"`
 	Commit   string `json:"commit,omitempty"`
@@ -372,8 +377,91 @@ func loadKnown(path string) []Known {
 func (c *Ctx) openKnown(sig string) *Known {
 	for i := range c.Known {
 		k := &c.Known[i]
-		if k.Status == "open" && k.Property == c.Prop && k.Sig == sig {
+		if k.Status == "open" && k.Property == c.Prop && k.InputClass == "" && k.Sig == sig {
 			return k
+		}
+	}
+	return nil
+}
+
+// inputClasses: named predicates over a scenario's target file, for findings that are
+// identified by the input that fails.
+var inputClasses = map[string]func(src []byte) bool{
+	// a variable assigned, at least six times over the scenario's Ruby files (preloaded files
+	// and target are evaluated one after the other on the same state), an expression that mentions the variable itself
+	// twice (a = [a, a]; h = {x: h, y: h}; a = [a] + [a]): the inferred type doubles each time
+	"self-wrapping-growth": func(src []byte) bool {
+		count := map[string]int{}
+		for _, l := range strings.FieldsFunc(string(src), func(r rune) bool { return r == '\n' || r == '\r' }) {
+			l = strings.TrimSpace(l)
+			i := strings.Index(l, " = ")
+			if i <= 0 {
+				continue
+			}
+			v, rhs := l[:i], l[i+3:]
+			if strings.ContainsAny(v, " .[(") {
+				continue
+			}
+			n := 0
+			for _, tok := range strings.FieldsFunc(rhs, func(r rune) bool {
+				return !(r == '_' || r >= 'a' && r <= 'z' || r >= 'A' && r <= 'Z' || r >= '0' && r <= '9' || r == '@')
+			}) {
+				if tok == v {
+					n++
+				}
+			}
+			if n >= 2 {
+				count[v]++
+			}
+		}
+		for _, n := range count {
+			if n >= 6 {
+				return true
+			}
+		}
+		return false
+	},
+}
+
+// knownFor finds the open finding that covers a candidate: by exact signature, or by
+// signature prefix plus input class.
+func (c *Ctx) knownFor(sig string, cs *Case) *Known {
+	if k := c.openKnown(sig); k != nil {
+		return k
+	}
+	for i := range c.Known {
+		k := &c.Known[i]
+		if k.Status != "open" || k.Property != c.Prop || k.InputClass == "" {
+			continue
+		}
+		core := sig
+		if j := strings.Index(core, "|"); j >= 0 && j < 12 {
+			core = core[j+1:] // C04 signatures carry the query mode in front
+		}
+		if !strings.HasPrefix(core, k.Sig) {
+			continue
+		}
+		pred := inputClasses[k.InputClass]
+		if pred == nil {
+			infra("known finding refers to unknown input class %q", k.InputClass)
+		}
+		for si := range cs.Steps {
+			// the preloaded files and the target, as one text
+			files := stepFiles(cs, si)
+			names := make([]string, 0, len(files))
+			for name := range files {
+				if strings.HasSuffix(name, ".rb") {
+					names = append(names, name)
+				}
+			}
+			sort.Strings(names)
+			var all []byte
+			for _, name := range names {
+				all = append(append(all, files[name]...), '\n')
+			}
+			if pred(all) {
+				return k
+			}
 		}
 	}
 	return nil
@@ -497,7 +585,7 @@ func (c *Ctx) Report(o Oracle, cands map[string][]candidate) int {
 			list := cands[sig]
 			sort.Slice(list, func(a, b int) bool { return caseSize(list[a].cs) < caseSize(list[b].cs) })
 			kn := ""
-			if c.openKnown(sig) != nil {
+			if c.knownFor(sig, list[0].cs) != nil {
 				kn = " [known]"
 			}
 			fmt.Printf("SURVEY %5d %s%s\n", len(list), sig, kn)
@@ -518,6 +606,21 @@ func (c *Ctx) Report(o Oracle, cands map[string][]candidate) int {
 		})
 		c.Stats.Add("candidates", len(list))
 		c.Stats.Add("candidates:"+sig, len(list))
+		// candidates that a listed finding identified by its input class covers are counted,
+		// the others of the same signature go on
+		var rest []candidate
+		for _, cand := range list {
+			if k := c.knownFor(sig, cand.cs); k != nil && k.InputClass != "" {
+				knownSeen[k.InputClass+"|"+k.Sig] = true
+				c.Stats.Inc("known_finding_hits")
+				continue
+			}
+			rest = append(rest, cand)
+		}
+		list = rest
+		if len(list) == 0 {
+			continue
+		}
 		if k := c.openKnown(sig); k != nil {
 			knownSeen[sig] = true
 			c.Stats.Add("known_finding_hits", len(list))
@@ -573,6 +676,9 @@ func (c *Ctx) Report(o Oracle, cands map[string][]candidate) int {
 			continue
 		}
 		still := knownSeen[k.Sig]
+		if k.InputClass != "" {
+			still = knownSeen[k.InputClass+"|"+k.Sig]
+		}
 		if !still && k.Witness != "" {
 			rf, err := loadReplay(filepath.Join(c.Verif, k.Witness))
 			if err != nil {
@@ -581,7 +687,7 @@ func (c *Ctx) Report(o Oracle, cands map[string][]candidate) int {
 				}
 				infra("known finding witness %s: %v", k.Witness, err)
 			}
-			if f := o.Judge(c, w, &rf.Case); f != nil && f.Sig == k.Sig {
+			if f := o.Judge(c, w, &rf.Case); f != nil && (f.Sig == k.Sig || (k.InputClass != "" && c.knownFor(f.Sig, &rf.Case) == k)) {
 				still = true
 			} else if f != nil {
 				// the witness now fails differently: that is a different violation
